@@ -23,7 +23,11 @@ theorem lex_loop_closes (fuel : Nat) : ∀ (l : L), Inv l → Ready l → l.inp.
   | zero => intro l _ _ h; omega
   | succ n ih =>
     intro l h hr hf
-    obtain ⟨_, t2, t3, t, ht, hle1, hprog, hstop⟩ := lexToken_inv l h hr
+    obtain ⟨_, t2, t3, t, ht, hle1, hprog', hstop', _, hge, _⟩ := lexToken_inv l h hr
+    have hprog : (lexToken l).2 = Next.token → l.pos < (lexToken l).1.pos :=
+      fun hx => Nat.lt_of_le_of_lt hge (hprog' hx)
+    have hstop : (lexToken l).2 = Next.stop → t.id = tERROR ∨ (lexToken l).1.inp.size ≤ (lexToken l).1.pos :=
+      fun hx => (hstop' hx).imp id (fun h => h.1)
     obtain ⟨sf, st⟩ := sws_total (lexToken l).1 hle1
     have e := sws_ext (lexToken l).1
     simp only [lex.loop]
